@@ -392,6 +392,11 @@ def _run_impl(case: dict) -> dict:
             t = sconn._reader_task
             return t is not None and not t.done()
 
+        def lib_writer():
+            """the library's end of the newest socket to the server (not taken from the connection object: a
+            defective library may have dropped its reference)"""
+            return [a for a, b in net.pairs if a.peername == ('srv', SERVER_PORT)][-1]
+
         def wd_sleeping():
             """Is the reconnect watchdog inside its job (= waiting out the reconnect delay)?"""
             t = client.network._connection_watchdog_task._task
@@ -515,7 +520,7 @@ def _run_impl(case: dict) -> dict:
                     inv = 1
                 else:
                     saved_mode, srv.mode = srv.mode, 'accepted'
-                    w = sconn._writer
+                    w = lib_writer()
                     cnt = {'n': -1}
 
                     def on_write(data, w=w, cnt=cnt, j=op[1]):
@@ -542,7 +547,7 @@ def _run_impl(case: dict) -> dict:
                     inv = 1
                 else:
                     saved_mode, srv.mode = srv.mode, ('hold' if pos == 'pre' else 'accepted')
-                    w = sconn._writer
+                    w = lib_writer()
                     gate = asyncio.Event()
                     if k == 'loginat' and pos != 'pre':
                         cnt = {'n': -1}
@@ -588,7 +593,7 @@ def _run_impl(case: dict) -> dict:
                     elif r == 'read_error':
                         srv.writers[-1].reset()
                     elif r == 'write_error':
-                        w = sconn._writer
+                        w = lib_writer()
                         w.fail_after = len(w.sent)
                         t = asyncio.ensure_future(call(client.network.send_server_messages(m.Ping.Request())))
                     elif r == 'requested':
@@ -630,7 +635,7 @@ def _run_impl(case: dict) -> dict:
                     elif r == 'read_error':
                         srv.writers[-1].reset()
                     elif r == 'write_error':
-                        w = sconn._writer
+                        w = lib_writer()
                         w.fail_after = len(w.sent)
                         await call(client.network.send_server_messages(m.Ping.Request()))
                     elif r == 'requested':
@@ -683,7 +688,7 @@ def _run_impl(case: dict) -> dict:
                 elif r == 'read_error':
                     srv.writers[-1].reset()
                 elif r == 'write_error':
-                    w = sconn._writer
+                    w = lib_writer()
                     w.fail_after = len(w.sent)
                     try:
                         await client.network.send_server_messages(m.Ping.Request())
@@ -840,6 +845,11 @@ def _monitor(case: dict, impl: dict) -> list[Violation]:
         if session and row['c'] != 'connected':
             add('C16-session-without-connection', f'after op #{i} {op} a session is present but the server connection '
                 f'is {row["c"]}', where)
+        if session and row['c'] == 'connected' and 'reader' not in _minus([t for t in row['tasks'].split(',') if t], held) \
+                and not _is_stop(op):
+            add('C16-session-without-reader', f'after op #{i} {op} a session is present but nothing reads from the '
+                f'server connection (no reader task): the loss of this connection would never be noticed', where,
+                'login() starts the reader of the connection it logged in on')
         # ---- M1: the burst
         if op[0] in ('login', 'tick', 'logincut', 'loginat', 'loginrace', 'lossrec') and n_init == 1 and session \
                 and (not closed or op[0] == 'lossrec'):
@@ -913,8 +923,11 @@ def _monitor(case: dict, impl: dict) -> list[Violation]:
                 if row['c'] == 'connected':
                     pending_loss = None                          # the application has reconnected
                 elif op[0] == 'lossrec' and closed:
-                    pending_loss = {'reason': closed[0], 'ticks': 0, 'att': 0,
-                                    'want': bool(cfg['reconnect']) and closed[0] not in ('requested', 'eof')}
+                    # the reconnect of the application failed (the first loss stands) or the connection it made
+                    # was lost again (e.g. the server answered the login by EOF: that loss stands)
+                    reason = closed[-1] if int(row['conn']) else closed[0]
+                    pending_loss = {'reason': reason, 'ticks': 0, 'att': 0,
+                                    'want': bool(cfg['reconnect']) and reason not in ('requested', 'eof')}
             elif closed and not inv and (was_connected or int(row['conn']) or (op[0] == 'tick' and int(row['att']))):
                 # an established connection was lost, or a reconnect attempt of the watchdog failed
                 reason = closed[-1]
@@ -1343,7 +1356,7 @@ def _sweeps(tier: str) -> list[dict]:
     out = _break_sweep(_base_cfg(), EVENTS, 'fallback')
     out += _break_sweep(_base_cfg(race=True, reconnect=False), ['stop', 'requested'], 'race-mode')
     out += _race_sweep(_base_cfg(reconnect=False), ['stop'], range(0, 46), 'natural')
-    out += _race_sweep(_base_cfg(), ['requested', 'reset', 'timeout'], range(0, 46, 2), 'natural')
+    out += _race_sweep(_base_cfg(), ['requested', 'reset', 'timeout'], range(0, 46, 3), 'natural')
     if tier != 'quick':
         small = _base_cfg(friends=[], liked=[], hated=[], favs=[], wishlist=0, reconnect=False)
         big = _base_cfg(friends=['f1', 'f2', 'f3', 'me'], liked=['rock', 'jazz'], hated=['pop', 'noise'], autojoin=False)
